@@ -61,7 +61,7 @@ func budgetOf(c *core.Ctx) budget {
 	if c.Thorough() {
 		return budget{strCheap: 6000, strExtreme: 2500, fmtCheap: 3000, fmtExtreme: 700, argsPerX: 6, sweepX: 120, radixInts: 500, radixPerInt: 8, ties: 400, txtCheap: 12000, txtExtreme: 2500, txtTies: 600}
 	}
-	return budget{strCheap: 900, strExtreme: 260, fmtCheap: 420, fmtExtreme: 60, argsPerX: 3, sweepX: 14, radixInts: 90, radixPerInt: 4, ties: 60, txtCheap: 1200, txtExtreme: 250, txtTies: 60}
+	return budget{strCheap: 900, strExtreme: 260, fmtCheap: 420, fmtExtreme: 60, argsPerX: 3, sweepX: 14, radixInts: 90, radixPerInt: 4, ties: 60, txtCheap: 1000, txtExtreme: 150, txtTies: 60}
 }
 
 func ulps(f float64, k int) float64 {
@@ -475,7 +475,7 @@ var placeholder = []byte(`{"op":"String","x":{"c":"int","v":1},"a":{"t":"undef"}
 var Spec = &gen.Spec{
 	Module: "C06",
 	Runs: func(c *core.Ctx) []gen.RunCfg {
-		maxLen, litLen := 4, 5
+		maxLen, litLen := 4, 4
 		if c.Thorough() {
 			maxLen, litLen = 5, 6
 		}
